@@ -10,10 +10,13 @@
   that already holds `base` plans; `newra` / `sel k` / `restart` are the multi-plan ops; every other
   line is a message for the current slot (`MOp.on`).  Each slot has its own curve, hence its own
   oracle tables.  The observation is prefixed by `<cur> <plan id|-> <LastPlanId> <#plans> ;` and
-  `restart` shows every slot.
+  `restart` shows every slot.  An executed exact-spend purchase (`bes … ok`) additionally shows
+  ` nu=<0|1> nl=<0|1>`: the pointwise Newton contract at the purchase (`newtonUpperAtB`,
+  `newtonLowerAtB` with `newtonTolRaw`), which the harness recomputes from the real code's values.
 -/
 import DymVerif.Driver.Common
 import DymVerif.Model.IroPlans
+import DymVerif.Model.IroNewton
 namespace DymVerif.Driver.C13
 open DymVerif DymVerif.Iro DymVerif.IroPlans DymVerif.Driver
 
@@ -160,7 +163,23 @@ def step (ds : DS) (f : List String) : DS × String :=
         let (ni, nt) := needs (ds1.m.slot ds1.m.cur) op
         if ni.any (fun x => (lookupI (itabOf ds1 ds1.m.cur) x).isNone) || nt.any (fun a => (lookupT (ttabOf ds1 ds1.m.cur) a.1 a.2).isNone) then
           (ds1, "oracle-missing")
-        else mop ds1 (.on op)
+        else
+          let pre := ds1.m.slot ds1.m.cur
+          let k := ds1.m.cur
+          let (ds2, out) := mop ds1 (.on op)
+          if !(out.startsWith "ok ") then (ds2, out) else
+          match besPoint pre op with
+          | none => (ds2, out)
+          | some (L, sold, net) =>
+            let I := oIs ds1 k; let T := oTs ds1 k
+            match tokensForExactIn T L sold net with
+            | none => (ds2, out ++ " nu=- nl=-")
+            | some t =>
+              if [sold, sold + t].any (fun x => (lookupI (itabOf ds1 k) x).isNone) then (ds2, "oracle-missing")
+              else
+                let s := (scaleFromBase sold 18).raw
+                let pr := (scaleFromBase net L).raw
+                (ds2, out ++ s!" nu={showB (newtonUpperAtB I T L sold net)} nl={showB (newtonLowerAtB I T (newtonTolRaw pr) s pr)}")
 
 def drv : Drv := { σ := DS, init := default, step := step }
 
